@@ -26,6 +26,14 @@ def scenario_set(pkidir):
     # the faulted connection is itself a resumption (session cache lookup, ticket / PSK decryption, X25519 key share under the fault)
     for ver, mode in (("T12", "id+res"), ("T12", "ticket+res"), ("T13", "psk+res"), ("T13", "psk+res+x25519")):
         S.append(dict(ver=ver, kx="followup", fam="r", suites="0xc02f", role="C", cb="none", cred="ok", pop="ok", carrier="none", mode=mode))
+    # further code paths under the fault: HelloRetryRequest with server_name (second ClientHello re-parses the name), the SNI callback on
+    # TLS 1.2, finite-field key shares (ffdhe2048), record padding
+    for ver, mode, sx, cx in (("T13", "psk+hrr-sni", "groups=24 snicb=1", "groups=23,24 shares=1 sni=localhost name=localhost"),
+                              ("T12", "id+sni", "snicb=1", "sni=localhost name=localhost"),
+                              ("T13", "psk+ffdhe", "groups=256", "groups=256"),
+                              ("T13", "psk+pad", "padblock=512", "padblock=1024"),
+                              ("T13", "psk+res+hrr-sni", "groups=24 snicb=1", "groups=23,24 shares=1 sni=localhost name=localhost")):
+        S.append(dict(ver=ver, kx="followup", fam="r", suites="0xc02f", role="C", cb="none", cred="ok", pop="ok", carrier="none", mode=mode, sx=sx, cx=cx))
     return S
 
 TK = "/repo/testkeys"
@@ -36,6 +44,8 @@ def followup_script(sc, k):
     co = "ver=%s sid=R%s%s" % (sc["ver"], " tick=1" if sc["mode"].startswith("ticket") else "", "" if sc["ver"] == "T13" else " suites=0x2f" if sc["ver"] == "T11" else " suites=0xc02f")
     if "x25519" in sc["mode"]:
         so += " groups=29"; co += " groups=29"
+    if sc.get("sx"): so += " " + sc["sx"]
+    if sc.get("cx"): co += " " + sc["cx"]
     KS = ["keys ks id=%s/RSA/2048_RSA.pem,%s/RSA/2048_RSA_KEY.pem ca=%s/RSA/2048_RSA_CA.pem tickets=1" % (TK, TK, TK), "keys kc ca=%s/RSA/2048_RSA_CA.pem" % TK]
     if "+res" in sc["mode"]:
         # keys and a first, fault-free connection that fills the handle; then the resumption under the fault; then a fault-free third connection
@@ -125,7 +135,7 @@ def run(tier, seed):
             # uniform sampling of indices would spend nearly everything on the big-number library
             st = sorted(sites.get("Q%d" % i, []), key=lambda x: (x[2], x[0]))
             nsites_total[0] += len(st); nsites_used[0] += min(len(st), per)
-            ks = set(range(0, min(n, 8))) | set(f for f, l, c in st[:per]) | set(l for f, l, c in st[:per // 3]) | set(rnd.randrange(n) for _ in range(12))
+            ks = set(range(0, min(n, 8))) | set(f for f, l, c in st[:per]) | set(l for f, l, c in st[:per]) | set(rnd.randrange(n) for _ in range(12))
             ks = sorted(ks)
         ks = [k for k in ks if k < n]
         for k in ks:
